@@ -231,6 +231,12 @@ func (ex *Exec) specArgsAssumptions(varKey, argsT, retT string) {
 		}
 		return ex.def("spec.param", "function.Parameter", "(mk.function.Parameter "+strings.Join(parts, " ")+")")
 	}
+	// the Type callback only gets what returnTypeForValues checked (types, nulls); unknown and marked
+	// arguments reach it. The Impl callback gets the full parameter contract.
+	pred := "impl_arg_ok"
+	if retT == "" {
+		pred = "arg_ok"
+	}
 	n := len(sl.params)
 	if sl.varParam == nil {
 		ex.assume(fmt.Sprintf("(= (Slice.len %s) %d)", argsT, n))
@@ -242,11 +248,11 @@ func (ex *Exec) specArgsAssumptions(varKey, argsT, retT string) {
 		pt := paramTerm(pl)
 		v := fmt.Sprintf("(val_at %s %d)", argsT, i)
 		ex.assume(fmt.Sprintf("(trig %d)", i))
-		ex.assume("(and (impl_arg_ok " + pt + " " + v + ") (wf_deep " + v + "))")
+		ex.assume("(and (" + pred + " " + pt + " " + v + ") (wf_deep " + v + "))")
 	}
 	if sl.varParam != nil {
 		pt := paramTerm(*sl.varParam)
-		ex.assume(fmt.Sprintf("(forall ((j Int)) (! (=> (and (trig j) (<= %d j) (< j (Slice.len %s))) (and (impl_arg_ok %s (val_at %s j)) (wf_deep (val_at %s j)))) :pattern ((trig j))))", n, argsT, pt, argsT, argsT))
+		ex.assume(fmt.Sprintf("(forall ((j Int)) (! (=> (and (trig j) (<= %d j) (< j (Slice.len %s))) (and (%s %s (val_at %s j)) (wf_deep (val_at %s j)))) :pattern ((trig j))))", n, argsT, pred, pt, argsT, argsT))
 	}
 	if retT != "" {
 		ex.assume("(wf_ty " + retT + ")")
